@@ -1,6 +1,7 @@
 """C08 — the permutation mapper returns each admissible assignment exactly once.
 
-Correspondence (returned list *in order* == model) + executable specification
+Correspondence (returned list == model; the ORDER of the list is not part of the statement: an answer that is a
+re-ordering of the model's and passes the executable specification agrees, tag `order_differs`) + executable specification
 (`C08.specCheckCall`: every returned assignment admissible, none twice, every admissible one
 present, caller's lists untouched) on every implementation output; `MappingMatrix.is_mapping`
 against `C08.isMappingSpec` and against `permute([ps], [ss]) != []`.
@@ -64,7 +65,9 @@ class TooSlow(Exception):
 
 
 CALL_LIMIT_S = 20.0   # inputs are generated so that a call walks <= 8! permutations (well under a second)
+LONG_LIMIT_S = 300.0  # the `long-structure` stream: 9-11 symbols, the implementation walks 9! .. 11! permutations (1 s .. 1 min)
 _slow_calls = [0]     # per process: after two calls that hit the limit the limit drops to 2 s
+_limit = [None]       # per process: limit of the call in progress (None = CALL_LIMIT_S)
 
 
 def _alarm(signum, frame):
@@ -80,7 +83,7 @@ def limited(f, *a, **k):
         old = signal.signal(signal.SIGALRM, _alarm)
     except ValueError:           # not in a main thread
         return f(*a, **k)
-    signal.setitimer(signal.ITIMER_REAL, CALL_LIMIT_S if _slow_calls[0] < 2 else 2.0)
+    signal.setitimer(signal.ITIMER_REAL, _limit[0] if _limit[0] is not None else CALL_LIMIT_S if _slow_calls[0] < 2 else 2.0)
     try:
         return f(*a, **k)
     finally:
@@ -337,6 +340,56 @@ def matrix_cases(r, rng, n_matrices, stream):
     return cases
 
 
+LONG_CONFIGS = [(None, False, []), ("R", False, []), (None, True, []), ("R", True, []), (None, False, ["H"]), ("R", False, ["H"]),
+                ("R", False, ["H", "R"]), ("R", True, ["R", "H"]), (None, False, "Cl")]
+
+
+def gen_long(rng, n, heavy_ok):
+    """one input whose PADDED structure has exactly n symbols and whose pattern has 1-2 symbols: n or n(n-1) results at
+    most, cheap for the model and the specification; the implementation walks all n! permutations.  `heavy_ok`: allow
+    the variants in which (nearly) every permutation matches (about 2.5 us per permutation instead of 0.5 us)."""
+    wild, ic, cmtn = rng.choice(LONG_CONFIGS)
+    cm = cmtn_list(cmtn)
+    for _ in range(200):
+        lp = rng.choice([1, 1, 2])
+        x, y = rng.sample(["C", "O", "N", "Cl"], 2)
+        opt = rng.choice(cm) if cm and rng.random() < 0.7 else None          # a pattern symbol that may map to nothing
+        kind = rng.choice(["all", "most", "half", "one", "none"]) if heavy_ok else rng.choice(["most", "half", "half", "one", "none"])
+        first = wild if wild is not None and rng.random() < 0.35 else x
+        pat = [first] if lp == 1 else [first, rng.choice([x, y, opt or y, wild or x])]
+        if opt is not None and rng.random() < 0.6:
+            pat[-1] = opt
+        if ic and rng.random() < 0.5:
+            pat = [q.swapcase() for q in pat]
+        m = {"all": n, "most": n - rng.randint(1, 4), "half": n // 2, "one": 1, "none": 0}[kind]
+        st = [x] * m + [rng.choice([y, y, "S"]) for _ in range(n - m)]
+        if ic:
+            st = [q.swapcase() if rng.random() < 0.3 else q for q in st]
+        rng.shuffle(st)
+        # cut the structure so that structure + dummies has n symbols
+        for cut in range(0, 3):
+            st2 = st[:n - cut]
+            if len(padded(wild, ic, cmtn, pat, st2)[2]) == n:
+                return wild, ic, cmtn, pat, st2
+    return wild, ic, cmtn, ["C"], ["C"] * n
+
+
+def long_inputs(tier, seed):
+    """the `long-structure` stream (own random source, so the other streams are what they were): padded structures of 9 and
+    10 symbols in every run, 11 in the thorough tier — sizes beyond the exhaustive / box / random streams (<= 8), where a
+    size threshold in the enumeration would hide"""
+    import random
+    rng = random.Random("long/%d" % seed)
+    plan = [(9, 40, True), (10, 4, True), (10, 8, False)] if tier == "quick" else [(9, 300, True), (10, 24, True), (10, 40, False), (11, 3, False)]
+    # the reviewer's witness and its neighbours, fixed
+    yield ("long-structure", None, False, [], ["C"], ["C"] * 10)
+    yield ("long-structure", None, False, [], ["C"], ["C"] * 6 + ["O"] * 4)
+    yield ("long-structure", "R", False, ["H"], ["C", "H"], ["C"] * 5 + ["O"] * 4)
+    for n, count, heavy in plan:
+        for _ in range(count):
+            yield ("long-structure",) + tuple(gen_long(rng, n, heavy))
+
+
 class ParDriver:
     """several driver processes; a batch is cut into contiguous pieces (order-preserving, so
     results do not depend on the number of processes)"""
@@ -437,11 +490,43 @@ def _work(inp):
     stream, wild, ic, cmtn, pat, st = inp[:6]
     form = inp[6] if len(inp) > 6 else None
     out = []
-    for c in permute_cases(wild, ic, cmtn, pat, st, stream, _shared_mapper(wild, ic, cmtn, form), form=form):
+    long = stream == "long-structure"
+    _limit[0] = LONG_LIMIT_S if long else None
+    # (the long calls are not repeated on a long-lived mapper: each costs seconds)
+    for c in permute_cases(wild, ic, cmtn, pat, st, stream, None if long else _shared_mapper(wild, ic, cmtn, form), form=form):
         pc = PCase(c.req, c.impl, c.in_domain, c.meta, c.nontrivial_key, c.compare_model, c.tags)
         pc._line = c.line()
         out.append(pc)
+    _limit[0] = None
     return out
+
+
+def order_only(o):
+    """the implementation's answer is a re-ordering of the model's (same assignments, same multiplicities, caller's lists
+    equal) and passes the executable specification: the statement of C08 speaks of the SET of assignments and of "no
+    assignment twice", not of their order"""
+    if not o.ok_reply or o.spec_impl != "1" or isinstance(o.case.impl, ImplError):
+        return False
+    if len(o.case.req) < 2 or o.case.req[1] != "permute":
+        return False
+    m, i = o.model, o.impl_c
+    if not (isinstance(m, list) and isinstance(i, list) and len(m) == 3 and len(i) == 3):
+        return False
+    return m[1:] == i[1:] and m[0] != i[0] and sorted(map(tuple, m[0])) == sorted(map(tuple, i[0]))
+
+
+def evaluate(r, cases):
+    """Run.evaluate + the correspondence rule of C08: a pure re-ordering is agreement (counted, tag `order_differs`)"""
+    n0 = len(r.corr_failures)
+    outs = r.evaluate(cases)
+    keep = r.corr_failures[:n0]
+    for o in r.corr_failures[n0:]:
+        if o.case.in_domain and order_only(o):
+            r.count("tag:order_differs")
+        else:
+            keep.append(o)
+    r.corr_failures = keep
+    return outs
 
 
 def ctor_form(rng, wild, ic, cmtn):
@@ -513,23 +598,27 @@ def run(tier, seed):
         r.driver = ParDriver(min(8, ncpu))
         # MappingMatrix cases (drawn first so that the permute stream can be consumed lazily)
         mcases = matrix_cases(r, rng, 60 if tier == "quick" else 1500, "matrix")
-        r.evaluate(mcases[:2000])          # F6 witnesses come first
+        evaluate(r, mcases[:2000])          # F6 witnesses come first
+        # the long-structure stream runs beside the others (one input per task: a call takes seconds)
+        long_async = pool.map_async(_work, list(long_inputs(tier, seed)), chunksize=1)
         block = []
         stopped = False
         for inp in gen_inputs(tier, rng):
             block.append(inp)
             if len(block) >= 30000:
-                r.evaluate([c for cs in pool.map(_work, block, chunksize=250) for c in cs])
+                evaluate(r, [c for cs in pool.map(_work, block, chunksize=250) for c in cs])
                 block = []
                 if r.spec_failures:
                     # a concrete failing input is in hand: report it instead of searching on
                     stopped = True
                     break
         if block and not stopped:
-            r.evaluate([c for cs in pool.map(_work, block, chunksize=250) for c in cs])
+            evaluate(r, [c for cs in pool.map(_work, block, chunksize=250) for c in cs])
         for k in range(2000, len(mcases), 40000):
             if not stopped:
-                r.evaluate(mcases[k:k + 40000])
+                evaluate(r, mcases[k:k + 40000])
+        if not stopped:
+            evaluate(r, [c for cs in long_async.get() for c in cs])
         r.extra_cov["stopped_at_first_failing_block"] = stopped
     finally:
         pool.terminate()
@@ -538,7 +627,11 @@ def run(tier, seed):
         "str.lower() is modelled by String.toLower: symbols are ASCII",
         "Python's `x in wildcard` substring test in the constructor's sort key is modelled by Perm.isSubstr",
         "an assignment [(0,a0),(1,a1),…] travels as (a0 a1 …); the harness rejects any other shape as a failure",
+        "the order of the returned list is not part of the statement: an answer that is a re-ordering of the model's list and passes the executable specification counts as agreeing (tag order_differs, counted); the order the matcher relies on (first fitting assignment) is C04's business",
+        "sizes: the implementation enumerates all n! permutations of the padded structure, so padded structures beyond 10 (quick) / 11 (thorough) symbols are not sampled; 9-11 symbols only with patterns of 1-2 symbols (stream long-structure)",
     ]
+    r.extra_cov["answers_that_are_a_reordering_of_the_models"] = r.dist.get("tag:order_differs", 0)
+    r.extra_cov["long_structure_cases"] = {k[len("tag:"):]: v for k, v in sorted(r.dist.items()) if k.startswith("tag:ls=") and int(k[7:]) >= 8}
     r.extra_cov["exhaustive_domain"] = "all pattern/structure lists over %s with %s, times %d configurations" % (
         ALPHA, "|pat|+|str| <= 4" if tier == "quick" else "|pat|,|str| <= 3 and all with |pat|+|str| <= 5", 20)
     # known finding K6 (recorded, not repaired): the witness is replayed against the real code on every run
@@ -560,6 +653,8 @@ def run(tier, seed):
         rule="exhaustive: every pattern/structure list over {C,c,O,H,R,Cl} (quick: |pat|+|str|<=4; thorough: |pat|,|str|<=3 and |pat|+|str|<=5) "
              "x wildcard in {None,R} x ignore_case x can_map_to_nothing in {[],[H],[R],[H,R],[R,H]}; random lists from the box up to 4x4 (6x6 thorough); "
              "random longer lists (pattern <= 7, structure <= 9) incl. duplicate / substring-of-wildcard / folded configurations; "
+             "LONG structures (stream long-structure, every run): patterns of 1-2 symbols against padded structures of exactly 9 and 10 symbols (11 in the thorough tier), with and without "
+             "wildcard / ignore_case / can_map_to_nothing (list and bare multi-letter string), none / one / half / most / all structure symbols matching (n or n(n-1) results at most); "
              "ALTERNATIVE FORMS of the configuration (tags cmtn-form:* / ctor-form:*): can_map_to_nothing as a BARE STRING (= one-element list; multi-letter symbols Cl, Br, Si, Na, cl and "
              "one-letter ones) exhaustively on lists with |pat|+|str|<=3 and in ~15% of the box / random streams and a fifth of the matrices, over alphabets that contain the symbol AND the letters "
              "it could be split into; constructor called with positional arguments / defaults left out (~7%); the Lean model receives the intended normal form ([<string>]) and the canonical "
@@ -568,7 +663,7 @@ def run(tier, seed):
              "non-trivial = at least one assignment returned (permute) / every matrix cell, distinct by (configuration, lists)",
         checker_cmd="cd lean && lake build FGVerif.Proofs.C08 && lake env lean FGVerif/Audit/C08.lean",
         explanation="theorems in lean/FGVerif/Proofs/C08.lean about Model/Permutation.lean (permute_exact, permute_nodup, arrangements lemmas, "
-                    "specCheck_sound); model tied to fgutils.permutation by differential testing including result order; executable spec "
+                    "specCheck_sound); model tied to fgutils.permutation by differential testing (result lists compared exactly; a pure re-ordering of the model's list that passes the executable spec agrees and is counted: the statement speaks of the set of assignments, each exactly once); executable spec "
                     "C08.specCheckCall applied to every implementation output together with the caller's lists after the call; every call is "
                     "repeated on a long-lived mapper object and must answer the same")
 
@@ -583,7 +678,7 @@ def replay(path):
     if meta.get("op") == "permute":
         c = permute_case(meta["wildcard"], meta["ignore_case"], meta["can_map_to_nothing"], meta["pattern"],
                          meta["structure"], "replay", form=meta.get("constructor_form"))
-        r.evaluate([c])
+        evaluate(r, [c])
     elif meta.get("op") == "ismapping":
         from fgutils.permutation import MappingMatrix
         wild, ic, cmtn = meta["wildcard"], meta["ignore_case"], meta["can_map_to_nothing"]
